@@ -103,13 +103,13 @@ type c20w struct { // writer class
 }
 
 type c20r struct { // reader class
-	kind  string // bin, hex, ascii, bool, noread
-	n     int
-	order string
-	pos   token.Pos
-	err   string
-	lit   *ast.FuncLit
-	size  ast.Expr
+	kind          string // bin, hex, ascii, bool, noread
+	n             int
+	order         string
+	pos           token.Pos
+	err           string
+	lit           *ast.FuncLit
+	size          ast.Expr
 	signed, minus bool // ascii: parsed as signed / condition accepts '-'
 }
 
